@@ -58,13 +58,13 @@ def ctl(profile, qn, ql, tn, tl, salt=0):
 CTLMOD = ["JivaVerif.Properties.Controller"]
 
 PROPS = {
-    "C02": {"lean": CTLMOD, "prefixes": ["c02_", "c18_removed_silent", "ctl_reachable_inv", "removeAll_gone"],
+    "C02": {"lean": CTLMOD + ["JivaVerif.Properties.C02Hist"], "prefixes": ["c02_", "c18_removed_silent", "ctl_reachable_inv", "removeAll_gone", "hinv_", "fanOut_ok_applied", "write_ok_applied"],
             "runs": [ctl("faults", 640, 30, 12000, 40, 11)], "modelled": CTL},
     "C03": {"lean": CTLMOD, "prefixes": ["c03_", "ctl_reachable_inv"],
             "runs": [ctl("membership", 480, 30, 9000, 40, 12)], "modelled": CTL},
     "C04": {"lean": CTLMOD, "prefixes": ["c04_", "c18_consistent", "c09_start_fences_stale", "ctl_reachable_inv"],
             "runs": [ctl("reads", 480, 30, 9000, 40, 13)], "modelled": CTL},
-    "C05": {"lean": CTLMOD, "prefixes": ["c05_", "c02_failed_detached", "c18_removed_silent", "ctl_reachable_inv"],
+    "C05": {"lean": CTLMOD + ["JivaVerif.Properties.C02Hist"], "prefixes": ["c05_", "c02_failed_detached", "c02_in_service_holds_acked", "c18_removed_silent", "ctl_reachable_inv"],
             "runs": [ctl("faults", 640, 30, 12000, 40, 14), rep("rebuild", 160, 30, 3000, 40, 48)], "modelled": CTL + [
                 "integration: in the replicadiff rebuild profile one of three real RW replicas is killed (REST endpoint 503, data connections cut) behind the real remote backend / RPC client / monitoring; the write that follows must be acknowledged, the dead replica must leave the controller's list, and the survivors' images stay equal (requests killq, cmp)",
                 "partial: that the detector fires (ping ticker, RPC deadline, TCP close) is runtime behaviour; the model takes 'the monitor fires' / 'the call returns an error' as events"]},
